@@ -57,8 +57,8 @@ def validate_sessions(ck, trace, parts, describe, label, retry_kind=None):
                 continue
             ck.violation("%s %s" % (label, describe(e)), {"kind": e["ev"], "event": e, "expected": exp})
     ck.cov["traces_validated_against_impl"] += total - skipped
-    ck.cov["vacuity"][label + "_sessions"] = total
-    ck.cov["vacuity"][label + "_not_claimed"] = skipped
+    ck.cov["vacuity"][label + "_sessions"] = ck.cov["vacuity"].get(label + "_sessions", 0) + total
+    ck.cov["vacuity"][label + "_not_claimed"] = ck.cov["vacuity"].get(label + "_not_claimed", 0) + skipped
     log("%s: %d sessions validated (%d outside the claim) in %.1fs" % (label, total, skipped, time.time() - t0))
     if total and skipped > 0.8 * total:
         raise ToolError("vacuity: %d of %d sessions of %s are outside the claim" % (skipped, total, label))
